@@ -108,9 +108,19 @@ PartialMetaV(e) ==
                      LET p == ParamOf(f, out.ps[x].n) q == out.ps[x] IN ~KindOrder(p.k, q.k) \/ p.d # q.d \/ p.dv # q.dv \/ p.an # q.an,
                    "C10_PartialOthersKept")
 
+(* depths: a callable reached through several inputs keeps the SMALLEST depth (embed puts its k-th input k-1 levels down) *)
+MinNat(S) == CHOOSE x \in S : \A y \in S : x <= y
+DepthIsMinimum(op, ins, o) ==
+  \A f \in DOMAIN o.depth :
+     LET cand == {ins[i].depth[f] + (IF op \in {"embed", "forwards"} THEN i - 1 ELSE 0) : i \in {j \in DOMAIN ins : f \in DOMAIN ins[j].depth}}
+     IN cand = {} \/ o.depth[f] = MinNat(cand)
 ProvV(e) ==
-  IF ~W("C08") \/ e.out.tag # "sig" THEN {}
-  ELSE SourcesWF(e.out) \cup (IF e.plain THEN SourcesVsInputs(e.op, e.ins, e.flags, e.out) ELSE {})
+  IF ~W("C08") THEN {}
+  (* what signature retrieval and the algebra hand out stays well-formed while it is used as an input (also of LATER operations) *)
+  ELSE Clause(\E i \in DOMAIN e.ins : SourcesWF(e.ins[i]) # {}, "C08_InputProvenanceDamaged")
+  \cup (IF e.out.tag # "sig" THEN {}
+        ELSE SourcesWF(e.out) \cup (IF e.plain THEN SourcesVsInputs(e.op, e.ins, e.flags, e.out) ELSE {})
+             \cup Clause(e.op \in {"merge", "embed"} /\ ~DepthIsMinimum(e.op, e.ins, e.out), "C08_DepthIsMinimum"))
 
 PureV(e) ==
   IF ~W("C16") THEN {}
